@@ -69,8 +69,10 @@ def run(ctx):
             x[..., 0, :1 if tail else None] = 0       # a vanishing component somewhere
         x = x.astype(cdt)
         basis = rng.choice(['linear', 'circular'])
-        dask = rng.random() < 0.3
-        data = da.from_array(x, chunks=(max(1, L // 2), 1, 2) + tail) if dask else x
+        dask = rng.random() < 0.4
+        # chunk layouts incl. the polarisation axis split in two (what da.stack of two single-polarisation streams produces)
+        polc = rng.choice([2, 2, 1])
+        data = da.from_array(x, chunks=(max(1, L // 2), rng.choice([1, nchan]), polc) + tuple(rng.choice([1, t]) for t in tail)) if dask else x
         start = Time('2021-03-04T05:06:07.5', precision=9) if rng.random() < 0.7 else None
         z = pb.DualPolarizationSignal(data, sample_rate=1 * u.MHz, center_freq=1.4 * u.GHz, freq_align=rng.choice(['bottom', 'center', 'top']),
                                       pol_type=basis, start_time=start, meta={'k': k})
@@ -102,7 +104,11 @@ def run(ctx):
            or type(lin) is not pb.DualPolarizationSignal:
             ctx.fail('result_type_or_pol_type', inp)
             continue
-        lin_d, circ_d, st_d, int_d = (np.asarray(v.data) for v in (lin, circ, st, inten))
+        try:
+            lin_d, circ_d, st_d, int_d = (np.asarray(v.data) for v in (lin, circ, st, inten))
+        except Exception as e:
+            ctx.fail('conversion_raised', dict(inp, chunks=str(getattr(data, 'chunks', None)), at='compute'), impl=repr(e))
+            continue
         if st_d.shape != (L, nchan, 4) + tail or lin_d.shape != x.shape or circ_d.shape != x.shape or int_d.shape != x.shape:
             ctx.fail('result_shape', inp, impl=[list(st_d.shape), list(lin_d.shape)])
             continue
@@ -130,7 +136,12 @@ def run(ctx):
             p2 = (np.abs(got[:, :, 0].astype(LD)) ** 2 + np.abs(got[:, :, 1].astype(LD)) ** 2).astype(np.float64)
             if np.any(np.abs(p2 - pw) > 32 * eps * pw + 1e-300):
                 ctx.fail('power_not_preserved', inp)
-        back = np.asarray((circ.to_linear() if basis == 'linear' else lin.to_circular()).data)
+        try:
+            back = np.asarray((circ.to_linear() if basis == 'linear' else lin.to_circular()).data)
+            other_pre = np.asarray((circ if basis == 'linear' else lin).to_stokes().data)
+        except Exception as e:
+            ctx.fail('conversion_raised', dict(inp, chunks=str(getattr(data, 'chunks', None)), at='second conversion'), impl=repr(e))
+            continue
         if np.any(np.abs(back.astype(LD) - x.astype(LD)).astype(np.float64) > 32 * eps * am[:, :, None] + 1e-300):
             ctx.fail('round_trip_not_identity', inp)
         # Stokes: documented formulas on the linear representation
@@ -143,7 +154,7 @@ def run(ctx):
         if np.any(e > tols):
             ctx.fail('stokes_formulas', inp, impl=float(np.max(e / tols)))
         # identical whichever basis they are computed from (through the implementation)
-        other = np.asarray((circ if basis == 'linear' else lin).to_stokes().data)
+        other = other_pre
         if np.any(np.abs(other.astype(np.longdouble) - st_d.astype(np.longdouble)).astype(np.float64) > 48 * eps * pw[:, :, None] + 1e-300):
             ctx.fail('stokes_depend_on_basis', inp)
         I, Q, U, V = (st_d[:, :, j].astype(np.longdouble) for j in range(4))
